@@ -64,10 +64,13 @@ def cases(spec, ctx):
             space.update({"maxw": 64, "maxh": 32, "max_slices": (2, 2)})
         r = configs.random_recipe(ctx.rng, space)
         if big:
-            r["w"] = max(r["w"], 32 if r["cdf"] == 0 else 32)
-            r["h"] = max(r["h"], 16)
-            r["h"] -= r["h"] % 4
-            r["w"] -= r["w"] % 2
+            r["w"] = ctx.rng.choice([32, 64])
+            r["h"] = 32
+            r["sx"], r["sy"] = 1, ctx.rng.choice([1, 2])
+            if r["fsc"]:
+                r["fsc"] = ctx.rng.choice([1, r["sx"] * r["sy"]])
+            if r["profile"] == 3 and ctx.rng.random() < 0.5:
+                r["lossless"], r["pb"] = True, None
         if not r["lossless"]:
             n = r["sx"] * r["sy"]
             # byte budgets with every remainder modulo the slice count (slice sizes then differ between slices)
